@@ -330,11 +330,10 @@ inductive Err
 def isAlpha (c : Char) : Bool := ('a' ≤ c ∧ c ≤ 'z') ∨ ('A' ≤ c ∧ c ≤ 'Z')
 def isAlnum (c : Char) : Bool := isAlpha c ∨ ('0' ≤ c ∧ c ≤ '9')
 
-/-- the rest of `^[a-zA-Z]+(?:-[a-zA-Z0-9]+)*$` after the first letter; `first` = still inside the
-    leading `[a-zA-Z]+`.  Python's `$` also matches before a final newline. -/
+/-- the rest of `^[a-zA-Z]+(?:-[a-zA-Z0-9]+)*\Z` after the first letter; `first` = still inside the
+    leading `[a-zA-Z]+` -/
 def tagGo : Bool → Str → Bool
   | _, [] => true
-  | _, ['\n'] => true
   | _, '-' :: c :: s => isAlnum c && tagGo false s
   | first, c :: s => (if first then isAlpha c else isAlnum c) && tagGo first s
 
